@@ -158,11 +158,11 @@ def read_then_wait(ck, ctx):
     ck.floor("pipe read in run_command", len(rd), 1)
     ck.floor("waitpid in run_command", len(wp), 1)
 
-    def pred_eof(e):
-        e = strip(e)
-        return e[0] == "bin" and e[1] == "Eq" and e[3] == ("const", 0) and any(c[3] == rd[0][0] for c in calls_in(e[2]))
+    def is_n(e):
+        # the Continue payload of `read(..)?` of this loop's read
+        return C.from_try_of(e, callee_of(rd[0][1]), rd[0][0])
 
-    g = C.bool_gate_edges(ctx, b, pred_eof)
+    g, g_not = C.zero_test_edges(ctx, b, is_n)
     for bb, t in wp:
         ck.ob("read-then-wait", "waitpid-after-eof", Q.gated(cfg, bb, g)[0], "waitpid is reached only through the read loop's `n == 0` (EOF) exit (gates %s)" % sorted(g), span=t["loc"], fn=RC)
         pe = strip(R.arg(bb, 0))
@@ -178,11 +178,14 @@ def read_then_wait(ck, ctx):
     if ok:
         bb, t = cbs[0]
         e = R.arg(bb, 1)
-        rng = [y for y in walk(e) if y[0] == "agg" and y[2] == "std::ops::Range"]
-        hi = strip(rng[0][4][1]) if len(rng) == 1 else ("unk",)
-        is_n = hi[0] == "field" and hi[2] == "0" and strip(hi[1])[0] == "downcast" and strip(hi[1])[2] == "Continue" and strip(strip(hi[1])[1])[0] == "call" and strip(strip(hi[1])[1])[1].endswith("::branch") and strip(strip(strip(hi[1])[1])[2][0])[0] == "call" and strip(strip(strip(hi[1])[1])[2][0])[3] == rd[0][0]
-        ok = len(rng) == 1 and rng[0][4][0] == ("const", 0) and is_n
-        g_not = {(x, [l for l in Q.bool_edges(b.blocks[x]["term"]) if l != lab][0]) for x, lab in g}
+        rng = [y for y in walk(e) if y[0] == "agg" and y[2] in ("std::ops::Range", "std::ops::RangeTo")]
+        if len(rng) == 1 and rng[0][2] == "std::ops::Range":
+            lo_ok, hi = rng[0][4][0] == ("const", 0), strip(rng[0][4][1])
+        elif len(rng) == 1:
+            lo_ok, hi = True, strip(rng[0][4][0])
+        else:
+            lo_ok, hi = False, ("unk",)
+        ok = lo_ok and is_n(hi)
         ok = ok and Q.gated(cfg, bb, g_not, repeat=True)[0]
         # unavoidable on the non-EOF edge
         starts = [tt for (x, lab) in g_not for tt in cfg.edge_targets(x, lab)]
